@@ -4,6 +4,8 @@
 mod ast;
 mod exec;
 mod model;
+mod parse;
+mod record;
 mod replay;
 
 /// number of failures that are the harness' own (reported as tool errors, exit 2)
@@ -20,6 +22,7 @@ fn main() {
     let code = match args[1].as_str() {
         "replay" => replay::main(&args[2..]),
         "replay1" => replay::main_one(&args[2..]),
+        "record" => record::main(&args[2..]),
         other => {
             eprintln!("unknown sub-command {other}");
             2
